@@ -129,7 +129,7 @@ CHECKS = {
         "content-type choices (incl. 3 symbolic bytes) and bodies that are corrupted by a symbolic window, truncated at every length, followed by symbolic trailing bytes or missing/mistyping the "
         "required member; structured getP requests (required boolean text, missing required, required/optional/defaulted primitive given twice, integer path text, repeated array / unknown parameter) with symbolic value texts against an "
         "independent recogniser; a second spec with a ranged media type (image/*: content types with arbitrary bytes around the type), an optional JSON body (declared / unknown length x content type x body) and runtime-status responses returned by the handler. Asserts: no panic, exactly one response, unrouted requests 404/405, parameter-stage failure => 400 and no handler, body-stage failure => 400/415 and no handler, handler "
-        "error => 500, and against an independent recogniser: truncated / trailing-data / invalid-member bodies never reach the handler. The 401 stage is in C09.",
+        "error => 500, and against an independent recogniser: truncated / trailing-data / invalid-member bodies never reach the handler; a third spec for the SECURITY stage (operation requiring a header key AND a query key, OR bearer; an operation overriding with no requirement): symbolic credential presence and texts, symbolic SecurityHandler verdicts (accept / skip) and a symbolic path argument - the handler runs exactly when an alternative is fully presented and accepted and the argument is an integer, a security failure is answered 401, one response. Requirement STRUCTURES are C09's subject.",
    design="4 C15", technique="symbolic execution of generated server Go code (go/ssa) on symbolic hand-built requests + SMT"),
 }
 
